@@ -251,7 +251,9 @@ class Cache2D:
             return Spectrum(theta*fs)
 
         # Test whether our DFE pdf is symmetric. If it is we can dramatically reduce our calculations.
-        testx = np.logspace(-2,2,3)
+        # Probe on a few fixed values and on the cached gamma grid itself, so that a density that is asymmetric
+        # only between the fixed probe values is not mistaken for a symmetric one.
+        testx = np.concatenate((np.logspace(-2,2,3), -self.neg_gammas))
         testout = sel_dist(testx, testx, params)
         # We need atol=0 here to ensure small values don't lead to spurious pass of test
         symmetric_dfe = np.allclose(testout, testout.T, atol=0, rtol=1e-12)
